@@ -13,9 +13,15 @@ Local Open Scope Z_scope.
    equivalent spellings of a test — reordered disjuncts, `1 <= x` for `x > 0` — still go through). *)
 Ltac norm := cbv -[Z.ltb Z.leb Z.eqb Z.add Z.sub Z.opp upd map wake wake_at app nth_error].
 Ltac split_ifs :=
-  repeat match goal with
-         | |- context [if ?X then _ else _] => destruct X eqn:?
-         end.
+  repeat (match goal with
+          | |- context [if ?X then _ else _] =>
+              lazymatch X with
+              | context [if _ then _ else _] => fail       (* innermost tests first *)
+              | true => fail
+              | false => fail
+              | _ => destruct X eqn:?
+              end
+          end; cbv beta iota).
 Ltac zb' := repeat match goal with
   | H : (_ <? _) = true |- _ => apply Z.ltb_lt in H
   | H : (_ <? _) = false |- _ => apply Z.ltb_ge in H
